@@ -8,7 +8,7 @@ x, y, d and absence of overflow in whole floating-point runs; `y.dot(yprod) > 0`
 estimator (accuracy of the compiled LU)."""
 from . import ctrl, loop, scal, steps, twin, xform
 
-OWNED = ["C06."]
+OWNED = ["C06.", "C07.linear_solver_failure_becomes_step_solver_error", "C07.only_declared_failures_reach_compute_step"]
 REQUIRED = ["C06.solve_ends_with_a_status_or_a_deliberate_error", "C06.compute_step_always_returns_a_result"]
 META = dict(
     functions_encoded=loop.FUNCTIONS + ctrl.FUNCTIONS + steps.FUNCTIONS,
